@@ -53,7 +53,7 @@ HOLD_KINDS = ["lock.acquire", "lock.release", "lock.released", "lock.released", 
               "selector.select", "selector.modify", "sock.recv", "sock.send", "sleep"]
 
 
-def holds(max_n=2):
+def holds(max_n=2, bias=None):
     """targeted delays: thread T pauses at its n-th visit of a point of kind K for d virtual seconds"""
     one = st.builds(lambda t, k, n, d: [t, k, n, d], st.sampled_from(HOLD_THREADS), st.sampled_from(HOLD_KINDS), st.integers(1, 6),
                     st.sampled_from([0.001, 0.02, 0.3]))
@@ -65,7 +65,37 @@ def holds(max_n=2):
     # synchronisation call in between); needs a World built with line_holds=True (see wants_line_holds)
     line = st.builds(lambda t, f, n, d: [[t, "line:" + f, n, d]], st.sampled_from(HOLD_THREADS), st.sampled_from(LINE_FUNCS), st.integers(1, 40),
                      st.sampled_from([0.001, 0.02, 0.3]))
-    return st.one_of(st.just([]), recipe, st.lists(one, min_size=1, max_size=max_n), line)
+    # directed: an application thread (consumer / submitter) is delayed between two source lines of the API function it is in
+    # (test-then-wait, test-then-clear without a synchronisation call in between), for long enough that the library threads
+    # complete a whole hand-over meanwhile
+    api = st.builds(lambda t, f, n, d: [[t, "line:" + f, n, d]], st.sampled_from(["consumer-0", "consumer-0", "consumer-1", "submitter-0", "submitter-1"]),
+                    st.sampled_from(["get_message", "get_message", "get_postprocess_recv_message", "send_message", "put_message_into_send_queue"]),
+                    st.integers(1, 14), st.sampled_from([0.02, 0.3, 0.3]))
+    # slow motion: a thread pauses at *every* source line it executes inside one function (n = 0), so that the other threads
+    # complete whole hand-overs between any two of its lines - every check-then-act window of that function is held open at once
+    slow = st.one_of(
+        st.builds(lambda t, f, d: [[t, "line:" + f, 0, d]], st.sampled_from(["consumer-0", "consumer-0", "consumer-1"]),
+                  st.sampled_from(["get_message", "get_message", "get_postprocess_recv_message"]), st.sampled_from([0.004, 0.011, 0.03])),
+        st.builds(lambda t, f, d: [[t, "line:" + f, 0, d]], st.sampled_from(["submitter-0", "submitter-1", "closer"]),
+                  st.sampled_from(["send_message", "send_messages", "put_message_into_send_queue", "close"]), st.sampled_from([0.004, 0.011, 0.03])),
+        st.builds(lambda t, f, d: [[t, "line:" + f, 0, d]], st.sampled_from(["transport_layer_thread", "recv_message_monitor", "PSM"]),
+                  st.sampled_from(LINE_FUNCS), st.sampled_from([0.004, 0.011, 0.03])))
+    # rendezvous: an application thread pauses at its n-th source line inside an API function until a library thread has done its
+    # next signalling / hand-over step (test ... [the signal lands here] ... clear/wait)
+    until = st.builds(lambda t, f, n, u, k: [[t, "line:" + f, n, 2.0, u, k]],
+                      st.sampled_from(["consumer-0", "consumer-0", "consumer-1", "submitter-0", "closer"]),
+                      st.sampled_from(["get_message", "get_message", "get_postprocess_recv_message", "send_message", "put_message_into_send_queue", "close"]),
+                      st.integers(1, 12), st.sampled_from(["PSM", "PSM", "transport_layer_thread", "recv_message_monitor"]),
+                      st.sampled_from(["event.set", "event.set", "event.clear", "queue.put", "queue.get", "lock.released"]))
+    alts = [st.just([]), recipe, st.lists(one, min_size=1, max_size=max_n), line, api, slow, slow, until, until]
+    if bias == "consumer":
+        # the check's own API threads are consumers: slow motion inside get_message() gets a larger share
+        alts += [st.builds(lambda t, f, d: [[t, "line:" + f, 0, d]], st.sampled_from(["consumer-0", "consumer-0", "consumer-1"]),
+                           st.sampled_from(["get_message", "get_message", "get_postprocess_recv_message"]), st.sampled_from([0.004, 0.011, 0.03]))] * 2
+    if bias == "submitter":
+        alts += [st.builds(lambda t, f, d: [[t, "line:" + f, 0, d]], st.sampled_from(["submitter-0", "submitter-0", "submitter-1"]),
+                           st.sampled_from(["send_message", "send_messages", "put_message_into_send_queue"]), st.sampled_from([0.004, 0.011, 0.03]))] * 2
+    return st.one_of(*alts)
 
 
 LINE_FUNCS = ["_run", "_write", "write", "_read", "read", "_set_selector_events_mask", "close", "recv_message_from_queue", "put_message_into_send_queue",
@@ -77,6 +107,13 @@ def wants_line_holds(holds_):
 
 
 def apply_holds(world, holds_):
-    for t, k, n, d in holds_ or []:
-        name = f"{world.role}_psm_thread" if t == "PSM" else t
-        world.sched.hold(name, k, n, lambda: False, d)
+    """[thread, kind, nth, delay] or [thread, kind, nth, max delay, other thread, other kind] = paused until the other thread has
+    passed a point of that kind (or the max delay is over)"""
+    def nm(t):
+        return f"{world.role}_psm_thread" if t == "PSM" else t
+    for h in holds_ or []:
+        t, k, n, d = h[:4]
+        if len(h) == 6:
+            world.sched.hold(nm(t), k, n, ("until", nm(h[4]), h[5]), d)
+        else:
+            world.sched.hold(nm(t), k, n, lambda: False, d)
